@@ -773,6 +773,15 @@ func (s *scanner) ReadStreamData(dict Dict) (stm *Stream, err error) {
 		}
 	}()
 
+	// A scanner without access to the file (one that reads the contents of an
+	// object stream) can never read stream data; refuse before resolving an
+	// indirect /Length, which could lead back to this very object.
+	if s.fileReader == nil {
+		return nil, &MalformedFileError{
+			Err: errors.New("cannot read stream data"),
+		}
+	}
+
 	// /Length is required, but real-world PDFs (and fuzz mutations) omit it,
 	// give an indirect length that cannot be resolved, or give a plainly wrong
 	// value.  Resolve a candidate here; a missing or unusable one is treated as
